@@ -52,6 +52,79 @@ def _alternation(pattern: str, prefix: str, suffix: str) -> list[str]:
     return m.group(1).split("|")
 
 
+VOCAB_UNKNOWN: list[str] = []
+
+
+def scan_vocab():
+    """AST scan (code-shape scan, advisory: see DESIGN §4.1): tag and attribute-name literals."""
+    import ast
+
+    tags, keys, unknown = set(), set(), []
+
+    def tag_expr(e, where):
+        if isinstance(e, ast.Constant) and isinstance(e.value, str):
+            tags.add(e.value)
+        elif isinstance(e, ast.IfExp):
+            tag_expr(e.body, where)
+            tag_expr(e.orelse, where)
+        elif (isinstance(e, ast.BinOp) and isinstance(e.op, ast.Add) and isinstance(e.left, ast.Constant)
+              and e.left.value == "h" and ast.unparse(e.right) == "str(level)"):
+            tags.update(f"h{i}" for i in range(1, 7))
+        elif isinstance(e, ast.Name) and e.id in ("tag",):
+            pass  # StateBlock.push / StateInline.push forward their parameter
+        elif isinstance(e, ast.Attribute) and e.attr == "tag":
+            pass  # copies another token's tag
+        else:
+            unknown.append(where + " tag=" + ast.unparse(e))
+
+    root = common.REPO / "markdown_it"
+    for f in sorted(root.rglob("*.py")):
+        if f.name in ("token.py", "tree.py") or "cli" in f.parts:
+            continue
+        try:
+            tree = ast.parse(f.read_text())
+        except SyntaxError:
+            continue
+        rel = str(f.relative_to(common.REPO))
+        for node in ast.walk(tree):
+            if isinstance(node, ast.Call):
+                fn = node.func
+                name = fn.attr if isinstance(fn, ast.Attribute) else (fn.id if isinstance(fn, ast.Name) else "")
+                where = f"{rel}:{node.lineno}"
+                if name == "Token" or (name == "push" and len(node.args) == 3 and isinstance(fn, ast.Attribute)
+                                       and not ast.unparse(fn.value).endswith("ruler")):
+                    args = list(node.args)
+                    kw = {k.arg: k.value for k in node.keywords}
+                    tagarg = args[1] if len(args) > 1 else kw.get("tag")
+                    if tagarg is not None:
+                        tag_expr(tagarg, where)
+                    if "attrs" in kw and isinstance(kw["attrs"], ast.Dict):
+                        for k in kw["attrs"].keys:
+                            if isinstance(k, ast.Constant):
+                                keys.add(k.value)
+                if name in ("attrSet", "attrJoin") and node.args:
+                    a0 = node.args[0]
+                    if isinstance(a0, ast.Constant) and isinstance(a0.value, str):
+                        keys.add(a0.value)
+                    elif rel.endswith("token.py"):
+                        pass
+                    else:
+                        unknown.append(where + " attr key=" + ast.unparse(a0))
+            if isinstance(node, ast.Assign):
+                for tgt in node.targets:
+                    if isinstance(tgt, ast.Attribute) and tgt.attr == "tag":
+                        tag_expr(node.value, f"{rel}:{node.lineno}")
+                    if isinstance(tgt, ast.Attribute) and tgt.attr == "attrs":
+                        if isinstance(node.value, ast.Dict):
+                            for k in node.value.keys:
+                                if isinstance(k, ast.Constant) and isinstance(k.value, str):
+                                    keys.add(k.value)
+                                else:
+                                    unknown.append(f"{rel}:{node.lineno} attrs key")
+    VOCAB_UNKNOWN[:] = unknown
+    return sorted(tags), sorted(keys), unknown
+
+
 def generate() -> list[str]:
     common.use_repo()
     import importlib
@@ -142,6 +215,13 @@ def generate() -> list[str]:
 
     w("/-- `mdurl._encode.ENCODE_DEFAULT_CHARS` (dependency, as installed) -/")
     w("def encodeDefaultChars : List Nat := " + llist(sorted(ord(c) for c in menc.ENCODE_DEFAULT_CHARS), str))
+    w("")
+    tags, keys, unknown = scan_vocab()
+    w("/-- tag literals of every `push(type, tag, nesting)` / `Token(type, tag, nesting)` call and every")
+    w("    assignment to `.tag` found by an AST scan of markdown_it/** (`\"h\" + str(level)` = h1..h6) -/")
+    w("def pushTags : List String := " + llist(tags))
+    w("/-- attribute keys of every `attrs = {..}` literal, `attrSet/attrJoin/attrPush(\"k\", ..)` -/")
+    w("def attrKeys : List String := " + llist(keys))
     w("")
     w("end MdIt.Gen")
     text = "\n".join(L) + "\n"
